@@ -195,6 +195,8 @@ fn location_sets(n: usize, max_extra: usize) -> Vec<Vec<QLoc>> {
         out.push(me);
     };
     rec(&g, 0, &mut vec![], max_extra, &mut emit);
+    // small sets first (a time cap, if it is ever hit, cuts the largest sets)
+    out.sort_by_key(|s| s.len());
     out
 }
 
@@ -233,8 +235,9 @@ fn spaces(tier: Tier) -> (Vec<Case>, Vec<Value>) {
     let dims: Vec<(usize, usize)> = match tier {
         // (axes, max masters incl. default)
         Tier::Quick => vec![(1, 4), (2, 4)],
-        Tier::Thorough => vec![(1, 4), (2, 6), (3, 4)],
+        Tier::Thorough => vec![(1, 4), (2, 6), (3, 5)],
     };
+    let two_layer_max = tier.pick(3, 4);
     for (n, max_masters) in dims {
         let sets = location_sets(n, max_masters - 1);
         let before = cases.len();
@@ -246,9 +249,12 @@ fn spaces(tier: Tier) -> (Vec<Case>, Vec<Value>) {
             let has_pos0 = set.iter().any(|p| p[0] > 0);
             for kind in Kind::ALL {
                 for fam in Fam::ALL {
-                    for layer in &layers {
-                        if layer.len() == 2 && locs.len() > 4 {
+                    for (li, layer) in layers.iter().enumerate() {
+                        if layer.len() == 2 && locs.len() > two_layer_max {
                             continue; // the two-layer option stays with the small sets
+                        }
+                        if n == 3 && locs.len() == 5 && li > 1 {
+                            continue; // the largest 3-axis sets: no layer master / the on-axis one
                         }
                         cases.push(Case { n, locs: locs.clone(), layers: layer.clone(), kind, fam, keep_direction: false, mapped: false });
                     }
@@ -724,8 +730,8 @@ fn seg_dist2(p: P2, a: P2, b: P2) -> f64 {
     dx * dx + dy * dy
 }
 
-/// max over the vertices of `a` of the Euclidean distance to the closed polyline `b`
-fn one_sided(a: &[P2], b: &[P2]) -> f64 {
+/// max over the vertices of `a` of the Euclidean distance to the closed polyline `b` (exhaustive)
+fn one_sided_full(a: &[P2], b: &[P2]) -> f64 {
     let mut worst: f64 = 0.0;
     for p in a {
         let mut best = f64::INFINITY;
@@ -740,11 +746,57 @@ fn one_sided(a: &[P2], b: &[P2]) -> f64 {
     worst.sqrt()
 }
 
-fn hausdorff(a: &[P2], b: &[P2]) -> f64 {
+/// The same, searching for each vertex only near the segment that was nearest to the previous
+/// vertex (both curves run alongside each other). A windowed minimum can only be larger than the
+/// true one, so the result is an upper bound of `one_sided_full`.
+fn one_sided_windowed(a: &[P2], b: &[P2]) -> f64 {
+    const W: usize = 6;
+    let nb = b.len();
+    if nb <= 2 * W + 1 || a.is_empty() {
+        return one_sided_full(a, b);
+    }
+    let nearest_full = |p: P2| -> (usize, f64) {
+        let mut best = (0usize, f64::INFINITY);
+        for i in 0..nb {
+            let d = seg_dist2(p, b[i], b[(i + 1) % nb]);
+            if d < best.1 {
+                best = (i, d);
+            }
+        }
+        best
+    };
+    let (mut at, first) = nearest_full(a[0]);
+    let mut worst = first;
+    for p in &a[1..] {
+        let mut best = (at, f64::INFINITY);
+        for k in 0..=2 * W {
+            let i = (at + nb + k - W) % nb;
+            let d = seg_dist2(*p, b[i], b[(i + 1) % nb]);
+            if d < best.1 {
+                best = (i, d);
+            }
+        }
+        // the minimum sits on the window's edge: the curves drifted apart in parameter, look everywhere
+        if (best.0 + nb - at) % nb == W || (at + nb - best.0) % nb == W {
+            best = nearest_full(*p);
+        }
+        at = best.0;
+        worst = worst.max(best.1);
+    }
+    worst.sqrt()
+}
+
+/// Symmetric sampled Hausdorff distance; exact whenever the (cheaper, never smaller) windowed
+/// value exceeds `allow`.
+fn hausdorff(a: &[P2], b: &[P2], allow: f64) -> f64 {
     if a.is_empty() || b.is_empty() {
         return if a.is_empty() && b.is_empty() { 0.0 } else { f64::INFINITY };
     }
-    one_sided(a, b).max(one_sided(b, a))
+    let quick = one_sided_windowed(a, b).max(one_sided_windowed(b, a));
+    if quick <= allow {
+        return quick;
+    }
+    one_sided_full(a, b).max(one_sided_full(b, a))
 }
 
 /// vertices of both polylines are on their curves; the chord sagitta of the finest sampling of a
@@ -773,7 +825,7 @@ stats! {
         designs_with_composites, designs_with_nested_composites, designs_with_layer_master, designs_with_avar,
         designs_keep_direction, comparisons_with_iup_allowance, glyphs_sparse, glyphs_with_fractional_master_scalar, iup_omitted_points,
         gvar_tuples, gvar_intermediate_tuples, locations_off_master_by_quantisation, skrifa_crosschecks,
-        static_compiles;
+        static_compiles, cpu_ms_write_and_compile, cpu_ms_judge, designs_skipped_by_time_cap;
     // max_err_over_bound: largest |font - source| / bound over all non-default point comparisons
     max: max_err_over_bound, max_err, max_bound, max_cubic_dist, max_cubic_dist_over_bound,
         max_static_dist_over_bound
@@ -827,9 +879,12 @@ fn source_json(l: &Layer) -> Value {
     })
 }
 
-fn judge(d: &Design, opts: &fcx::Opts, xcheck: bool, st: &mut Stats) -> Outcome {
+fn judge(d: &Design, opts: &fcx::Opts, xcheck: bool, vs_static: bool, st: &mut Stats) -> Outcome {
     st.designs += 1;
-    let bytes = match compile_design(d, opts) {
+    let t0 = std::time::Instant::now();
+    let compiled = compile_design(d, opts);
+    st.cpu_ms_write_and_compile += t0.elapsed().as_millis() as u64;
+    let bytes = match compiled {
         Ok(b) => b,
         Err(fcx::Failure::Error(e)) => {
             st.rejected += 1;
@@ -841,11 +896,14 @@ fn judge(d: &Design, opts: &fcx::Opts, xcheck: bool, st: &mut Stats) -> Outcome 
         }
     };
     st.compiled += 1;
-    Outcome::Judged(judge_font(d, opts, &bytes, xcheck, st))
+    let t1 = std::time::Instant::now();
+    let f = judge_font(d, opts, &bytes, xcheck, vs_static, st);
+    st.cpu_ms_judge += t1.elapsed().as_millis() as u64;
+    Outcome::Judged(f)
 }
 
 /// Judge a compiled font against the drawings of `d`.
-fn judge_font(d: &Design, opts: &fcx::Opts, bytes: &[u8], xcheck: bool, st: &mut Stats) -> Vec<Finding> {
+fn judge_font(d: &Design, opts: &fcx::Opts, bytes: &[u8], xcheck: bool, vs_static: bool, st: &mut Stats) -> Vec<Finding> {
     let mut findings = vec![];
     let vf = match VFont::new(bytes) {
         Ok(v) => v,
@@ -1096,7 +1154,7 @@ fn judge_font(d: &Design, opts: &fcx::Opts, bytes: &[u8], xcheck: bool, st: &mut
                 for (ci, sc) in layer.contours.iter().enumerate() {
                     let Some(src) = flatten_source(sc) else { continue };
                     let fnt = flatten_font(&font_contours[&m][ci]);
-                    let dist = hausdorff(&fnt, &src);
+                    let dist = hausdorff(&fnt, &src, allow);
                     st.max_cubic_dist = st.max_cubic_dist.max(dist);
                     st.max_cubic_dist_over_bound = st.max_cubic_dist_over_bound.max(dist / allow);
                     st.points_compared += (fnt.len() + src.len()) as u64;
@@ -1109,6 +1167,9 @@ fn judge_font(d: &Design, opts: &fcx::Opts, bytes: &[u8], xcheck: bool, st: &mut
                     }
                 }
                 // the master's own static build
+                if !vs_static {
+                    continue;
+                }
                 let sfont = static_fonts.entry(m).or_insert_with(|| {
                     let have: Vec<String> = cubic_names.iter().filter(|n| d.glyph(n).unwrap().layers.contains_key(&m)).cloned().collect();
                     let sd = static_design(d, m, &have);
@@ -1133,7 +1194,7 @@ fn judge_font(d: &Design, opts: &fcx::Opts, bytes: &[u8], xcheck: bool, st: &mut
                 }
                 let allow = 2.0 * cu2qu_tol + std::f64::consts::SQRT_2 * (1.0 + b) + SAMPLING_EPS;
                 for ci in 0..sct.len() {
-                    let dist = hausdorff(&flatten_font(&font_contours[&m][ci]), &flatten_font(&sct[ci]));
+                    let dist = hausdorff(&flatten_font(&font_contours[&m][ci]), &flatten_font(&sct[ci]), allow);
                     st.max_static_dist_over_bound = st.max_static_dist_over_bound.max(dist / allow);
                     if dist > allow {
                         findings.push(Finding {
@@ -1274,10 +1335,10 @@ fn selftest() -> ! {
         let (d, opts) = build(case);
         let bytes = compile_design(&d, &opts).unwrap_or_else(|e| vcore::machinery_error(&format!("selftest compile: {e:?}")));
         let mut st = Stats::default();
-        let clean = judge_font(&d, &opts, &bytes, false, &mut st);
+        let clean = judge_font(&d, &opts, &bytes, false, true, &mut st);
         let mut bad = d.clone();
         falsify(&mut bad);
-        let f = judge_font(&bad, &opts, &bytes, false, &mut st);
+        let f = judge_font(&bad, &opts, &bytes, false, true, &mut st);
         let hit = f.iter().any(|x| x.class == want);
         println!("selftest {name}: clean findings {}, falsified findings {} ({}) -> {}", clean.len(), f.len(), f.first().map(|x| x.what.as_str()).unwrap_or("-"), if hit && clean.is_empty() { "ok" } else { "MISSED" });
         if !hit || !clean.is_empty() {
@@ -1327,7 +1388,7 @@ fn replay(path: &std::path::Path) -> ! {
     let opts: fcx::Opts = serde_json::from_value(r["opts"].clone()).unwrap_or_else(|e| vcore::machinery_error(&format!("opts: {e}")));
     println!("case: {}", r["label"].as_str().unwrap_or("?"));
     let mut st = Stats::default();
-    let out = judge(&d, &opts, true, &mut st);
+    let out = judge(&d, &opts, true, true, &mut st);
     let code = match out {
         Outcome::Rejected(e) => {
             println!("the compiler rejects the design: {e}");
@@ -1375,17 +1436,25 @@ fn main() {
     }
     let chunk = 8usize;
     let nchunks = cases.len().div_ceil(chunk);
+    let started = std::time::Instant::now();
+    // a safety net for an overloaded machine; a normal run finishes far below it
+    let cap_s: u64 = args.tier.pick(300, 1500);
     let results = vcore::par_for(nchunks, vcore::ncores(), |ci| {
         let mut st = Stats::default();
-        let mut viol: Vec<(String, String, Value)> = vec![];
+        let mut viol: Vec<(String, String, usize, Value)> = vec![];
         let mut samples: Vec<Value> = vec![];
         let mut rejected: Vec<(String, String)> = vec![];
         for (k, case) in cases[ci * chunk..((ci + 1) * chunk).min(cases.len())].iter().enumerate() {
             let idx = ci * chunk + k;
+            if started.elapsed().as_secs() > cap_s {
+                st.designs_skipped_by_time_cap += 1;
+                continue;
+            }
             let (d, opts) = build(case);
             let before = st.clone();
             // skrifa second opinion on every 16th design
-            match judge(&d, &opts, idx % 16 == 5, &mut st) {
+            // (the static builds of the masters: designs of the cubic kind)
+            match judge(&d, &opts, idx % 16 == 5, case.kind == Kind::Cubic, &mut st) {
                 Outcome::Rejected(e) => rejected.push((case.label(), format!("error: {e}"))),
                 Outcome::Panicked(e) => rejected.push((case.label(), format!("panic: {e}"))),
                 Outcome::Judged(f) => {
@@ -1393,11 +1462,9 @@ fn main() {
                     for x in f {
                         let key = format!("outline-mismatch:{}:{}:{}", case.kind.name(), case.fam.name(), x.class);
                         if seen.insert(key.clone()) {
-                            viol.push((
-                                key,
-                                format!("[{}] {}", case.label(), x.what),
-                                json!({"label": case.label(), "case": case, "opts": opts, "finding": x.detail, "design": serde_json::to_value(&d).unwrap()}),
-                            ));
+                            // the replay (with the serialised design) is built by the main
+                            // thread, for the first case of every key only
+                            viol.push((key, format!("[{}] {}", case.label(), x.what), idx, x.detail));
                         }
                     }
                     if idx % 997 == 3 && samples.len() < 2 {
@@ -1419,10 +1486,17 @@ fn main() {
     let mut samples: Vec<Value> = vec![];
     let mut rejected: Vec<Value> = vec![];
     let mut reject_classes: BTreeMap<String, u64> = BTreeMap::new();
+    let mut reported: BTreeSet<String> = BTreeSet::new();
     for (st, viol, s, rej) in results {
         add_stats(&mut total, &st);
-        for (k, w, r) in viol {
-            rep.violation(&k, &w, r);
+        for (k, w, idx, detail) in viol {
+            let replay = if reported.insert(k.clone()) {
+                let (d, opts) = build(&cases[idx]);
+                json!({"label": cases[idx].label(), "case": cases[idx], "opts": opts, "finding": detail, "design": serde_json::to_value(&d).unwrap()})
+            } else {
+                Value::Null
+            };
+            rep.violation(&k, &w, replay);
         }
         for x in s {
             if samples.len() < 12 {
@@ -1447,7 +1521,10 @@ fn main() {
     rep.set("spaces", notes);
     rep.set("samples", samples);
     rep.set("designs_not_compiled", json!({"count": total.rejected + total.panicked, "classes": reject_classes, "examples": rejected}));
-    rep.set("exhaustive", true);
+    rep.set("exhaustive", total.designs_skipped_by_time_cap == 0);
+    if total.designs_skipped_by_time_cap > 0 {
+        eprintln!("[C03] time cap of {cap_s}s hit: {} designs (the largest master sets) were not run", total.designs_skipped_by_time_cap);
+    }
     rep.assume("normalized master grid {-1,0,1}^n + (0.5,0,..) (+ a layer master at (0.5,0,..)/(0.25,0,..) or (0.5,0.5,..)): every location is F2Dot14-exact, so instantiation happens exactly at the master (measured: locations_off_master_by_quantisation)");
     rep.assume("closed contours of line / qcurve / cubic segments, two contours per simple glyph, identity-2x2 components; open contours, single points and transformed components are not enumerated");
     rep.assume("the start point of a contour is free (contours are compared as cyclic sequences; one rotation must serve all masters); an on-curve point may be left implied only where the instantiated neighbours' midpoint reproduces it within the bound + 0.5");
